@@ -22,8 +22,9 @@ import (
 )
 
 type pullModelSpec struct {
-	name   string // registry.sim/lib/mN:tag
-	key    string // lib/mN:tag (registry side)
+	prev   *pullModelSpec // the version of the tag published before this one
+	name   string         // registry.sim/lib/mN:tag
+	key    string         // lib/mN:tag (registry side)
 	layers [][]byte
 	config []byte
 	man    Manifest
@@ -87,7 +88,16 @@ func (w *storeWorld) manifestFile(name string) string {
 }
 
 // checkPulled: the statement's first sentence, evaluated when a pull reported success.
-func (w *storeWorld) checkPulled(spec *pullModelSpec, what string) {
+// prunedByPeer: the run has concurrent pulls and the digest belonged to a
+// version of a tag that has since been replaced at the registry (the pull that
+// updates the tag prunes the layers of the manifest it replaces).
+func (w *storeWorld) prunedByPeer(digest string) bool {
+	return w.concurrentPulls && w.staleDigests[digest]
+}
+
+func (w *storeWorld) checkPulled(spec *pullModelSpec, what string) { w.checkPulledBy(nil, spec, what) }
+
+func (w *storeWorld) checkPulledBy(att *pullAttempt, spec *pullModelSpec, what string) {
 	raw, err := os.ReadFile(w.manifestFile(spec.name))
 	if err != nil {
 		w.violate("C03", "store-audit", "pull-success:manifest-missing", "%s of %s reported success but the name does not resolve: %v", what, spec.name, err)
@@ -116,6 +126,9 @@ func (w *storeWorld) checkPulled(spec *pullModelSpec, what string) {
 		p := filepath.Join(w.dir, "blobs", strings.Replace(l.Digest, ":", "-", 1))
 		sum, n, err := fileSHA(p)
 		switch {
+		case err != nil && w.prunedByPeer(l.Digest):
+			w.violate("C03", "store-audit", "pull-success:layer-missing:pruned-by-concurrent-pull-of-updated-tag", "%s of %s reported success but layer %s is not in the store: a concurrent pull that updated another tag pruned it as unused (it belonged to the manifest that pull replaced) after this pull had found it present and before this pull wrote its manifest: %v", what, spec.name, shortDigest(l.Digest), err)
+			return
 		case err != nil:
 			w.violate("C03", "store-audit", "pull-success:layer-missing", "%s of %s reported success but layer %s is not in the store: %v", what, spec.name, shortDigest(l.Digest), err)
 			return
@@ -134,6 +147,10 @@ func (w *storeWorld) checkResolvable(when string) {
 	snap := w.snapshot()
 	anyTampered := len(w.reg.tampered) > 0
 	for _, p := range snap.audit(!anyTampered) {
+		if p.kind == "layer-missing" && w.prunedByPeer(p.digest) {
+			w.violate("C03", "store-audit", "resolvable:layer-missing:pruned-by-concurrent-pull-of-updated-tag", "%s: %s (a concurrent pull that updated another tag pruned the layer as unused while the pull of this model was in flight)", when, p.detail)
+			return
+		}
 		w.violate("C03", "store-audit", "resolvable:"+p.kind, "%s: %s", when, p.detail)
 		return
 	}
@@ -176,6 +193,7 @@ func firstN(s string, n int) string {
 }
 
 type pullAttempt struct {
+	peers  []*pullAttempt // attempts running in the same phase
 	spec   *pullModelSpec
 	done   bool
 	res    apiResult
@@ -204,7 +222,7 @@ func (w *storeWorld) pullTask(a *pullAttempt, stream bool, what string) {
 	case a.res.ok() && (a.res.lastStatus() == "success"):
 		verifsim.Probe("pull_success")
 		w.note("%s %s -> success", what, a.spec.name)
-		w.checkPulled(a.spec, what)
+		w.checkPulledBy(a, a.spec, what)
 	case a.res.ok() && !cancelled:
 		// a stream that ends without "success" and without an error object
 		verifsim.Probe("pull_no_verdict")
@@ -235,6 +253,7 @@ func runPull(t *testing.T, tape *verifsim.Tape, prop, tier string, keepLog bool)
 			cfg.phases += d("phases+", 3)
 		}
 		minDownloadPartSize, maxDownloadPartSize = cfg.partSize, cfg.partSize*4
+		w.concurrentPulls = cfg.concurrent
 		w.reg.needAuth = cfg.needAuth
 		w.reg.plan = drawFaultPlan()
 		w.note("config: models=%d part=%dB auth=%v phases=%d concurrent=%v cancel=1/%d updatetag=%v net: %s", cfg.nModels, cfg.partSize, cfg.needAuth, cfg.phases, cfg.concurrent, cfg.cancelRate, cfg.updateTag, w.reg.plan)
@@ -270,7 +289,12 @@ func runPull(t *testing.T, tape *verifsim.Tape, prop, tier string, keepLog bool)
 		for ph := 0; ph < cfg.phases; ph++ {
 			if cfg.updateTag && ph > 0 && d("update-now", 2) == 0 {
 				i := d("update-which", len(specs))
+				old := specs[i]
 				specs[i] = mkModel(i, "latest")
+				specs[i].prev = old
+				for _, l := range append(append([]Layer{}, old.man.Layers...), old.man.Config) {
+					w.staleDigests[l.Digest] = true
+				}
 				w.note("registry: tag %s updated", specs[i].key)
 			}
 			var atts []*pullAttempt
